@@ -291,8 +291,32 @@ def gen_cases(ctx, n_forests=None):
         yield from X.gen_for_forest(r, rows, meta, k)
 
 
+def _guard(kind, fn):
+    """Every runner sees (and records with its failures) the case including its `kind` (and, when called by harness/c04.py, the
+    back-end and the stream), so that a replay file is self-contained; an exception escaping from the operations of a case is a
+    failing input for the property (on the unchanged tree none of the generated operation sequences raises outside a `try`), not
+    an infrastructure error."""
+    from .common import Timeout
+
+    def runner(ctx, case, be=None):
+        c = dict(case, kind=kind) if be is None else dict(case, kind=kind, be=be, stream='c10')
+        try:
+            return fn(ctx, c, be)
+        except (Timeout, KeyboardInterrupt, MemoryError, AssertionError):
+            raise
+        except RuntimeError as e:
+            if 'driver' in str(e):
+                raise
+            ctx.oracle(False, f'{kind}: an operation of this case raised {type(e).__name__}: {str(e)[:120]} [{be}]', c)
+        except Exception as e:
+            ctx.oracle(False, f'{kind}: an operation of this case raised {type(e).__name__}: {str(e)[:120]} [{be}]', c)
+    runner.__name__ = getattr(fn, '__name__', kind)
+    return runner
+
+
 RUNNERS = {'reroot': case_reroot, 'cut': case_cut, 'subset': case_subset}
 RUNNERS.update(X.RUNNERS)
+RUNNERS = {k: _guard(k, f) for k, f in RUNNERS.items()}
 # kinds whose code path depends on the graph back-end (harness/c04.py re-runs these under every back-end)
 BACKEND_STREAMS = {'reroot', 'cut', 'subset', 'prune', 'cutx', 'rerootx'}
 
@@ -338,14 +362,14 @@ def exhaustive_small(ctx):
             for t in range(1, n + 1):
                 case = dict(rows=rows, targets=[t], meta=dict(shape='exh'))
                 ctx.case(dict(case, kind='reroot'), nontrivial=n >= 3)
-                case_reroot(ctx, case)
+                RUNNERS['reroot'](ctx, case)
                 cnt += 1
             if sum(1 for p in par if p < 0) == 1 and n > 1:
                 for c in range(1, n + 1):
                     if par[c - 1] >= 0:
                         case = dict(rows=rows, cuts=[c], meta=dict(shape='exh'))
                         ctx.case(dict(case, kind='cut'), nontrivial=n >= 3)
-                        case_cut(ctx, case)
+                        RUNNERS['cut'](ctx, case)
                 # second pass: every ordered pair of non-root nodes through the prune methods and cut_skeleton
                 # (all trees on ≤ 4 nodes, every 16th tree on 5 nodes)
                 trees += 1
